@@ -3,7 +3,7 @@
    findings, proved here as _refuted with concrete witnesses. What does hold universally is proved as _partial:
    the hierarchy invariant for every role table that does not spawn from inside an actor's own OnTerminated handler
    (exactly the behaviour of the second finding) and does not claim a system address. *)
-From MV Require Import Lib.ListX Kernel.Model Kernel.Run Kernel.Lifecycle Kernel.Hierarchy.
+From MV Require Import Lib.ListX Kernel.Model Kernel.Run Kernel.Lifecycle Kernel.Hierarchy Kernel.Queue.
 Open Scope Z_scope.
 
 Definition quiescent (s : kstate) : Prop := forall a, In a (actors s) -> a_inflight a = None.
@@ -85,6 +85,18 @@ Proof.
   - intros ro ru t r [<-|[<-|[]]] Hru Hact; cbn in Hru; [|destruct Hru]. destruct Hru as [<-|[]]. cbn in Hact. destruct Hact as [E|[]]. inversion E; subst. split; [lia|discriminate].
   - repeat constructor; cbn; lia.
 Qed.
+
+(* GRACEFUL TERMINATE ("lets the target first handle every user message that was enqueued before the request"):
+   the request is an ordinary user message appended at the tail of the target's mailbox, for every role table and
+   from any state; by the mailbox discipline (C02_kernel_mailbox_order_step/_run: heads are taken one at a time by
+   the actor's own steps, nothing overtakes) every user message enqueued earlier is taken before it. Whether a taken
+   message is handled or becomes a dead letter then depends only on whether ANOTHER, non-graceful termination or a
+   failure got there first (process_user). *)
+Theorem C05_graceful_request_queued_behind_partial : forall roles s t v a s' o,
+  lookup t (registry s) = Some v -> get s v = Some a -> kstep roles s (LTerm t true) = Some (s', o) ->
+  exists a', get s' v = Some a' /\ seq a' = seq a ++ [mk_env rNone t UTermG].
+Proof. exact graceful_request_at_tail. Qed.
+Print Assumptions C05_graceful_request_queued_behind_partial.
 
 (* what does hold in the common case: a graceful shutdown of a two-level tree with a message in flight, driven by
    a deterministic scheduler to quiescence: the queued message is handled before OnTerminate, the child reports
